@@ -478,7 +478,14 @@ func genViolator(w *World, g *OSGen, kind int) map[string]any {
 		return map[string]any{"object": map[string]any{"apiVersion": "ghost.example/v1", "kind": "Ghost", "metadata": map[string]any{"name": "gh-a", "namespace": nsMain}}}
 	case 1: // preset ownerReferences
 		o := mkObject(poolObj{"ConfigMap", "v1", "cm-owned", "", false}, 1, explicit)
-		store.Meta(o)["ownerReferences"] = []any{map[string]any{"apiVersion": "v1", "kind": "ConfigMap", "name": "someone", "uid": "uid-x"}}
+		ref := map[string]any{"apiVersion": "v1", "kind": "ConfigMap", "name": "someone", "uid": "uid-x"}
+		switch w.Scn.Intn(3, "preset-owner-controller") {
+		case 1:
+			ref["controller"] = true
+		case 2:
+			ref["controller"] = false
+		}
+		store.Meta(o)["ownerReferences"] = []any{ref}
 		return map[string]any{"object": o}
 	case 2: // foreign namespace
 		return map[string]any{"object": mkObject(poolObj{"ConfigMap", "v1", "cm-foreign", "", false}, 1, nsForeign)}
